@@ -21,3 +21,11 @@ Proof. vm_compute. reflexivity. Qed.
 Lemma documented_keywords_is_model :
   sort_strs ([110; 105; 108]%N :: gen_doc_keywords) = sort_strs (map fst keywords).
 Proof. vm_compute. reflexivity. Qed.
+
+(** a word is classified by looking its WHOLE lexeme up in the spelling table (not a prefix, a hash or a
+    normalised form of it): the statements of [identifier()] after its scanning loop *)
+Lemma word_classification_is_table_lookup :
+  gen_word_classification =
+  ["text := string(s.source[s.start:s.current])"; "if keyword, ok := keywords[text]; ok";
+   "{ s.addToken(keyword) }"; "{ s.addToken(token.IDENTIFIER) }"]%string.
+Proof. vm_compute. reflexivity. Qed.
